@@ -1076,4 +1076,14 @@ example : (apflRounds (fun k => (k ++ [false, false], k ++ [false, true], k ++ [
 example : proxGrad 2 [1, 1] [3, 5] [1, 1] = [5, 9] := by decide +kernel
 example : mimeRound exGrad (sgd (1/2)) 1 ⟨[1, 2], ()⟩ ([] : List (GClient Nat Nat)) = none := by decide +kernel
 
+/-- a cohort that lists client 7 twice (same id, its own key): `C12_fedprox_zero` needs no
+distinct-ids hypothesis, and every listed entry counts in numerator and denominator
+(weights 2, 1, 2 — not 2, 1) -/
+def exDup : List (Client Nat Nat) :=
+  [⟨7, 2, [1, 2], [false]⟩, ⟨8, 1, [1], [true, false]⟩, ⟨7, 2, [1, 2], [true, true, false]⟩]
+example : fedProxRound 0 exGrad (sgd (1/2)) (sgd 1) ⟨[1, 2], ()⟩ exDup
+    = round exGrad (sgd (1/2)) (sgd 1) ⟨[1, 2], ()⟩ exDup := C12_fedprox_zero _ _ _ _ _
+example : (FedAvg.round exGrad (sgd (1/2)) (sgd 1) ⟨[1, 2], ()⟩ exDup).params = [1/10, 1/5] ∧
+    (FedAvg.round exGrad (sgd (1/2)) (sgd 1) ⟨[1, 2], ()⟩ (exDup.take 2)).params = [1/6, 1/3] := by decide +kernel
+
 end FedjaxVerif.Algorithms
